@@ -2123,6 +2123,12 @@ int EGLPNUM_TYPENAME_ILLlib_chgsense (
 		case 'R':									/* Range constraint, we will set its upper bound
 																 once we call EGLPNUM_TYPENAME_QSchange_range, by default it 
 																 will be zero, i.e. an equation. */
+			/* a ranged row has a range (0 here): the writers emit it only when the
+			 * array exists, as in ILLlib_chgrange */
+			if (qslp->rangeval == 0)
+			{
+				qslp->rangeval = EGLPNUM_TYPENAME_EGlpNumAllocArray (qslp->rowsize);
+			}
 			qslp->sense[rowlist[i]] = 'R';
 			EGLPNUM_TYPENAME_EGlpNumZero(qslp->lower[j]);
 			EGLPNUM_TYPENAME_EGlpNumZero(qslp->upper[j]);
